@@ -97,7 +97,13 @@ def gen_case(rng):
             # aligned, so the distance is exact): admission is decided by `novelty >= threshold`, not "close to"
             base = rng.choice(seen)
             ax = rng.randrange(nd)
-            r = nu * (1 + rng.choice([-1, -1, 1]) * F(1, 2**rng.choice([18, 20, 22])))
+            # (a radius on the 2^-20 grid: exactly representable next to a lattice coordinate in float32 and float64,
+            # so that probes around different points do not become rounding near-ties of each other)
+            import math
+            if rng.random() < 0.67:
+                r = F(math.floor(nu * 2**20) - rng.choice([0, 1, 1, 3]), 2**20)
+            else:
+                r = F(math.ceil(nu * 2**20) + rng.choice([0, 1, 3]), 2**20)
             m = [q(F(x) + (r if i == ax else 0)) for i, x in enumerate(base)]
             return [tok[0], q(F(rng.randint(-6, 6), rng.choice([1, 2]))), m]
         m = [q(F(rng.randint(-span, span))) for _ in range(nd)]
